@@ -36,12 +36,29 @@ var (
 	skipPkgs = flag.String("skip", "github.com/relex/slog-agent/test,github.com/relex/slog-agent/cmd,github.com/relex/slog-agent", "packages left untouched")
 	verbose  = flag.Bool("v", false, "verbose")
 	vfsPkgs  = flag.String("vfs", "", "packages whose unix.* file syscalls go through the vfs seam (comma separated import paths)")
+	finePkgs = flag.String("fine", "", "packages instrumented at statement granularity: a scheduling point before every statement, and every store to a non-local location split into compute / scheduling point / store (comma separated import paths; a trailing /... matches sub-packages)")
 )
+
+func fineMatch(path string) bool {
+	for _, pat := range strings.Split(*finePkgs, ",") {
+		if pat == "" {
+			continue
+		}
+		if strings.HasSuffix(pat, "/...") {
+			if b := strings.TrimSuffix(pat, "/..."); path == b || strings.HasPrefix(path, b+"/") {
+				return true
+			}
+		} else if path == pat {
+			return true
+		}
+	}
+	return false
+}
 
 const vfsPath = "slogverif/rt/vfs"
 
 type stats struct {
-	vfs                                                                                                             int
+	vfs, fineYields, fineSplits                                                                                     int
 	files, sends, recvs, ranges, selects, closes, lens, gos, locks, wgs, atomics, times, signals, maps, pools, rsel int
 }
 
@@ -105,7 +122,7 @@ func main() {
 			if strings.HasSuffix(orig, "_test.go") {
 				continue
 			}
-			r := &rewriter{pkg: p, file: f, fset: p.Fset, info: p.TypesInfo, noAtomic: noat[p.PkgPath], vfs: vfsSet[p.PkgPath], timeOnly: tonly[p.PkgPath], fname: shortName(p.PkgPath, orig)}
+			r := &rewriter{pkg: p, file: f, fset: p.Fset, info: p.TypesInfo, noAtomic: noat[p.PkgPath], vfs: vfsSet[p.PkgPath], timeOnly: tonly[p.PkgPath], fine: fineMatch(p.PkgPath), fname: shortName(p.PkgPath, orig)}
 			if !r.rewriteFile() {
 				continue
 			}
@@ -137,8 +154,8 @@ func main() {
 	if err := os.WriteFile(filepath.Join(*outDir, "overlay.json"), data, 0o644); err != nil {
 		fatalf("%v", err)
 	}
-	fmt.Printf("instr: files=%d send=%d recv=%d range=%d select=%d close=%d len=%d go=%d lock=%d wg=%d atomic=%d time=%d signal=%d maprange=%d pool=%d reflectselect=%d vfs=%d\n",
-		st.files, st.sends, st.recvs, st.ranges, st.selects, st.closes, st.lens, st.gos, st.locks, st.wgs, st.atomics, st.times, st.signals, st.maps, st.pools, st.rsel, st.vfs)
+	fmt.Printf("instr: files=%d send=%d recv=%d range=%d select=%d close=%d len=%d go=%d lock=%d wg=%d atomic=%d time=%d signal=%d maprange=%d pool=%d reflectselect=%d vfs=%d fine-yields=%d fine-splits=%d\n",
+		st.files, st.sends, st.recvs, st.ranges, st.selects, st.closes, st.lens, st.gos, st.locks, st.wgs, st.atomics, st.times, st.signals, st.maps, st.pools, st.rsel, st.vfs, st.fineYields, st.fineSplits)
 }
 
 func shortName(pkgPath, file string) string {
@@ -156,6 +173,7 @@ type rewriter struct {
 	noAtomic   bool
 	vfs        bool
 	timeOnly   bool
+	fine       bool
 	usedVfs    bool
 	changed    bool
 	tmpN       int
@@ -291,6 +309,9 @@ func (r *rewriter) rewriteFile() bool {
 	r.labelFix = map[*ast.LabeledStmt][]ast.Stmt{}
 	r.voidAtomic = map[*ast.CallExpr]bool{}
 	astutil.Apply(r.file, r.pre, r.post)
+	if r.fine {
+		r.fineFile()
+	}
 	if !r.changed {
 		return false
 	}
@@ -895,4 +916,203 @@ func (r *rewriter) typeExpr(t types.Type) ast.Expr {
 		return nil
 	}
 	return e
+}
+
+// ---- statement-granularity mode (-fine) ------------------------------------------------------------------------------
+//
+// Between two synchronisation operations code is atomic under the cooperative scheduler, so state that is shared WITHOUT a
+// synchronisation operation in the exposed window (a scratch buffer hoisted to package level, an extractor shared by two
+// connections, a counter updated with load-add-store) is invisible to the explorer. For the packages named by -fine every
+// statement becomes a scheduling point, and a store to a location that can be shared (field, element, dereference,
+// package-level variable) is split into  tmp := value ; scheduling point ; location = tmp  — exactly the decomposition the
+// compiler makes, with the window made visible. Single-threaded meaning is unchanged (a Yield outside a session returns at once).
+
+func (r *rewriter) fineYield(n ast.Node) ast.Stmt {
+	pos := r.fset.Position(n.Pos())
+	st.fineYields++
+	r.changed = true
+	return &ast.ExprStmt{X: call(vs("Yield"), &ast.BasicLit{Kind: token.STRING, Value: strconv.Quote(fmt.Sprintf("fine:%s:%d", r.fname, pos.Line))})}
+}
+
+func (r *rewriter) fineFile() {
+	ast.Inspect(r.file, func(n ast.Node) bool {
+		switch b := n.(type) {
+		case *ast.FuncDecl:
+			if b.Doc != nil && hasDirective(b.Doc) {
+				return false // //go:nosplit and friends: leave alone
+			}
+		case *ast.BlockStmt:
+			b.List = r.fineList(b.List)
+		case *ast.CaseClause:
+			b.Body = r.fineList(b.Body)
+		case *ast.CommClause:
+			b.Body = r.fineList(b.Body)
+		}
+		return true
+	})
+}
+
+func isVschedCall(s ast.Stmt) bool {
+	es, ok := s.(*ast.ExprStmt)
+	if !ok {
+		return false
+	}
+	c, ok := es.X.(*ast.CallExpr)
+	if !ok {
+		return false
+	}
+	se, ok := c.Fun.(*ast.SelectorExpr)
+	if !ok {
+		return false
+	}
+	id, ok := se.X.(*ast.Ident)
+	return ok && id.Name == "vsched" && se.Sel.Name == "Yield"
+}
+
+func (r *rewriter) fineList(list []ast.Stmt) []ast.Stmt {
+	if len(list) == 0 {
+		return list
+	}
+	for _, s := range list {
+		if isVschedCall(s) {
+			return list // already processed (a list can be reached twice through rewritten nodes)
+		}
+		switch s.(type) {
+		case *ast.CaseClause, *ast.CommClause:
+			return list // the body of a switch / select: its clauses are handled one by one
+		}
+	}
+	out := make([]ast.Stmt, 0, 2*len(list))
+	for _, s := range list {
+		if _, ok := s.(*ast.EmptyStmt); ok {
+			out = append(out, s)
+			continue
+		}
+		out = append(out, r.fineYield(s))
+		if sp := r.fineSplit(s); sp != nil {
+			out = append(out, sp)
+		} else {
+			out = append(out, s)
+		}
+	}
+	return out
+}
+
+// sharedLoc reports whether e designates a location other goroutines may reach (not a plain local variable) and is free of
+// calls, receives and function literals, so that evaluating it twice is harmless.
+func (r *rewriter) sharedLoc(e ast.Expr) bool {
+	pure := true
+	ast.Inspect(e, func(n ast.Node) bool {
+		switch x := n.(type) {
+		case *ast.CallExpr, *ast.FuncLit:
+			pure = false
+		case *ast.UnaryExpr:
+			if x.Op == token.ARROW {
+				pure = false
+			}
+		}
+		return pure
+	})
+	if !pure {
+		return false
+	}
+	switch x := unparen(e).(type) {
+	case *ast.SelectorExpr, *ast.StarExpr:
+		return true
+	case *ast.IndexExpr:
+		// an element of a map is not addressable but assignable; fine either way
+		return true
+	case *ast.Ident:
+		if obj, ok := r.info.Uses[x].(*types.Var); ok && obj.Pkg() != nil && obj.Parent() == obj.Pkg().Scope() {
+			return true
+		}
+	}
+	return false
+}
+
+func (r *rewriter) fineSplit(s ast.Stmt) ast.Stmt {
+	switch x := s.(type) {
+	case *ast.IncDecStmt:
+		if !r.sharedLoc(x.X) || r.info.TypeOf(x.X) == nil {
+			return nil
+		}
+		op := token.ADD
+		if x.Tok == token.DEC {
+			op = token.SUB
+		}
+		t := r.tmp("f")
+		st.fineSplits++
+		return &ast.BlockStmt{List: []ast.Stmt{
+			define(t, x.X),
+			r.fineYield(s),
+			&ast.AssignStmt{Lhs: []ast.Expr{x.X}, Tok: token.ASSIGN, Rhs: []ast.Expr{&ast.BinaryExpr{X: t, Op: op, Y: &ast.BasicLit{Kind: token.INT, Value: "1"}}}},
+		}}
+	case *ast.AssignStmt:
+		if len(x.Lhs) != 1 || len(x.Rhs) != 1 || !r.sharedLoc(x.Lhs[0]) {
+			return nil
+		}
+		lt := r.info.TypeOf(x.Lhs[0])
+		if lt == nil {
+			return nil
+		}
+		if x.Tok == token.ASSIGN {
+			// plain store: only when the value is computed from memory or by a call and has exactly the type of the location
+			switch unparen(x.Rhs[0]).(type) {
+			case *ast.BasicLit, *ast.Ident, *ast.FuncLit, *ast.CompositeLit:
+				return nil
+			}
+			rt := r.info.TypeOf(x.Rhs[0])
+			if rt == nil || !types.Identical(lt, rt) {
+				return nil
+			}
+			if tv, ok := r.info.Types[x.Rhs[0]]; ok && tv.Value != nil {
+				return nil
+			}
+			if _, ok := rt.(*types.Tuple); ok {
+				return nil
+			}
+			t := r.tmp("f")
+			st.fineSplits++
+			return &ast.BlockStmt{List: []ast.Stmt{
+				define(t, x.Rhs[0]),
+				r.fineYield(s),
+				&ast.AssignStmt{Lhs: []ast.Expr{x.Lhs[0]}, Tok: token.ASSIGN, Rhs: []ast.Expr{t}},
+			}}
+		}
+		var op token.Token
+		switch x.Tok {
+		case token.ADD_ASSIGN:
+			op = token.ADD
+		case token.SUB_ASSIGN:
+			op = token.SUB
+		case token.MUL_ASSIGN:
+			op = token.MUL
+		case token.QUO_ASSIGN:
+			op = token.QUO
+		case token.REM_ASSIGN:
+			op = token.REM
+		case token.AND_ASSIGN:
+			op = token.AND
+		case token.OR_ASSIGN:
+			op = token.OR
+		case token.XOR_ASSIGN:
+			op = token.XOR
+		case token.SHL_ASSIGN:
+			op = token.SHL
+		case token.SHR_ASSIGN:
+			op = token.SHR
+		case token.AND_NOT_ASSIGN:
+			op = token.AND_NOT
+		default:
+			return nil
+		}
+		t := r.tmp("f")
+		st.fineSplits++
+		return &ast.BlockStmt{List: []ast.Stmt{
+			define(t, x.Lhs[0]),
+			r.fineYield(s),
+			&ast.AssignStmt{Lhs: []ast.Expr{x.Lhs[0]}, Tok: token.ASSIGN, Rhs: []ast.Expr{&ast.BinaryExpr{X: t, Op: op, Y: &ast.ParenExpr{X: x.Rhs[0]}}}},
+		}}
+	}
+	return nil
 }
